@@ -353,7 +353,7 @@ class MQTTProtocol(MQTTBaseProtocol):
         Called when a CONNACK has been received (publisher only).
         '''
         if self._cleanStart:
-            self._purgeSession(MQTTSessionCleared())
+            self._purgeSession(MQTTSessionCleared(), inherited=True)
         else:
             self._syncSession()
         if self.onMqttConnectionMade:
@@ -443,6 +443,7 @@ class MQTTProtocol(MQTTBaseProtocol):
         except Exception as e:
             return defer.fail(e)
 
+        request.protocol = self     # the connection this request was made on
         self.factory.queuePublishTx[self.addr].append(request)
         request.deferred.msgId = request.msgId
         self._refillPublish(dup=False)
@@ -614,17 +615,21 @@ class MQTTProtocol(MQTTBaseProtocol):
         for _, reply in self.factory.windowPubRelease[self.addr].items():
             self._retryRelease(reply, dup=True)
         for _, request in self.factory.windowPublish[self.addr].items():
-            self._retryPublish(request, dup=True)
+            if request.protocol is not self:    # not what was published while waiting for CONNACK
+                self._retryPublish(request, dup=True)
 
     # --------------------------------------------------------------------------
 
-    def _purgeSession(self, reason):
+    def _purgeSession(self, reason, inherited=False):
         '''
         Purges the persistent state in the client 
+        (only what previous connections left behind if inherited is True)
         '''
         #log.debug("{event}", event="Clean Persistent Session")
         for k in list(self.factory.windowPublish[self.addr]):
             request = self.factory.windowPublish[self.addr][k]
+            if inherited and request.protocol is self:
+                continue
             del self.factory.windowPublish[self.addr][k]
             request.deferred.errback(reason)
 
